@@ -99,5 +99,5 @@ Qed.
 Lemma enc_u32 x : 0 <= x < 4294967296 -> enc_int 4 false false x = Ok [x / 16777216 mod 256; x / 65536 mod 256; x / 256 mod 256; x mod 256].
 Proof.
   intros H. rewrite (enc_int_ok 4 false false x) by (unfold int_range; cbn; lia). cbv zeta. change (256 ^ Z.of_nat 4) with 4294967296.
-  rewrite Z.mod_small by lia. cbn [to_be app]. f_equal. repeat f_equal; lia.
+  rewrite Z.mod_small by lia. cbn [to_be app]. rewrite !Z.div_div by lia. reflexivity.
 Qed.
